@@ -104,13 +104,13 @@ var Cases = []Case{
 		Oracles: orc("denied", "denied-identical", "result", "list", "state", "open")}),
 	seqCase("C03", "dbworld-restart", 1, dbworld.Profile{RestartMode: 1, Golden: true, LaxModes: true, DiskFaults: true, MaxOps: 30, MaxNames: 3,
 		Oracles: orc("result", "list", "state", "restart", "open-modifies", "golden", "open")}),
-	seqCase("C09", "dbworld-cond", 1, dbworld.Profile{HTTPMode: 1, Restricted: 1, RestartMode: 1, CondHeavy: true, FileClient: true, DiskFaults: true, MaxOps: 40, MaxNames: 2,
+	seqCase("C09", "dbworld-cond", 1, dbworld.Profile{HTTPMode: 1, Restricted: 1, RestartMode: 1, CondHeavy: true, FileClient: true, DiskFaults: true, AuditFaults: true, MaxOps: 40, MaxNames: 2,
 		Oracles: orc("result", "state", "denied", "open", "fileclient")}),
 	seqCase("C06", "dbworld-audit", 3, dbworld.Profile{Restricted: 2, HTTPMode: 1, AuditFaults: true, MaxOps: 30, MaxNames: 3,
 		Oracles: orc("audit", "audit-quiet", "audit-order", "audit-failclosed", "open")}),
 	seqCase("C08", "dbworld-http", 1, dbworld.Profile{Restricted: 2, HTTPMode: 2, Corruptions: true, RuleChanges: true, MaxOps: 40, MaxNames: 3,
 		Oracles: orc("http-gate", "http-status", "http-leak", "result", "list", "denied", "state", "audit", "open")}),
-	seqCase("C05", "dbworld-scan", 3, dbworld.Profile{Scan: true, KEKOutage: true, RestartMode: 1, MaxOps: 25, MaxNames: 3,
+	seqCase("C05", "dbworld-scan", 3, dbworld.Profile{Scan: true, KEKOutage: true, RestartMode: 1, LaxModes: true, MaxOps: 25, MaxNames: 3,
 		Oracles: orc("plaintext", "mode", "kek", "result", "state", "restart", "open", "audit-noleak")}),
 	tamperCase(),
 	concCase("C14", "dbworld-conc", 1, false, orc("linearizable", "deadlock")),
@@ -118,6 +118,7 @@ var Cases = []Case{
 	concCase("C06", "dbworld-conc-free", 1, true, orc("audit-file")),
 	concCase("C06", "dbworld-conc", 1, false, orc("audit-sync", "deadlock")),
 	concCase("C09", "dbworld-conc", 1, false, orc("linearizable", "deadlock")),
+	concCase("C03", "dbworld-conc-restart", 1, false, orc("linearizable", "deadlock", "disk-equals-served")),
 	concCase("C04", "dbworld-conc-disk", 1, false, orc("linearizable", "deadlock", "disk-equals-served")),
 	{Prop: "C17", Engine: "backupworld", Weight: 1,
 		Real: []string{"server/backup.go (periodicBackup, doBackup)", "db (real file on tmpfs)", "aws-sdk-go-v2 s3 client (signing, serialisation)", "package time under testing/synctest"},
